@@ -539,14 +539,16 @@ mod n {
     fn n_c06_ground() {
         drive(
             "C06.ground",
-            "Wall::u_value for elements in contact with the ground: basement 8x5, height 3, floor depth z {0,1.5,3.5}; side walls all in contact with ground / two of four adiabatic (exposed perimeter halved) / all adiabatic (inner core room: finite); floor construction R {0.5, 2.5}; perimeter insulation (D,Rn) {(0,0),(1,1.5)}; element = slab / long basement wall",
+            "Wall::u_value for elements in contact with the ground: basement 8x5, height 3, floor depth z {0,1.5,3.5}; side walls all in contact with ground / two of four adiabatic (exposed perimeter halved) / all adiabatic (inner core room: finite); floor construction R {0.5, 2.5}; wall construction R {0.5, 2.5} (less / better insulated than the slab); perimeter insulation (D,Rn) {(0,0),(1,1.5)}; element = slab / long basement wall",
             |c| {
                 let depth = c.of(&[0.0f32, 1.5, 3.5]);
                 let exposure = c.pick(3); // 0: all four side walls in contact with ground, 1: two of four adiabatic, 2: inner core (none exposed)
                 let half = exposure == 1;
                 let insulated = c.flag();
                 let (d_ins, rn) = c.of(&[(0.0f32, 0.0f32), (1.0, 1.5)]);
-                c.note(format!("z {} exposure#{} insulated floor {} D {} Rn {}", depth, exposure, insulated, d_ins, rn));
+                // the basement wall less (R 0.5) or better (R 2.5) insulated than the slab: d_w on either side of d_t
+                let wall_insulated = c.flag();
+                c.note(format!("z {} exposure#{} insulated floor {} insulated wall {} D {} Rn {}", depth, exposure, insulated, wall_insulated, d_ins, rn));
                 let mut m = empty_model();
                 m.meta.d_perim_insulation = d_ins;
                 m.meta.rn_perim_insulation = rn;
@@ -557,14 +559,15 @@ mod n {
                 m.cons.wallcons = vec![wallcons(0xC0, &[(0xE0, 0.25)]), wallcons(0xC1, &[(0xE0, 0.25), (0xE2, 0.05)])];
                 let floor_cons = if insulated { 0xC1 } else { 0xC0 };
                 let r_floor = if insulated { 2.5f64 } else { 0.5 };
-                let r_wall = 0.5f64;
+                let r_wall = if wall_insulated { 2.5f64 } else { 0.5 };
+                let wall_cons = if wall_insulated { 0xC1 } else { 0xC0 };
                 m.walls.push(wall(1, BoundaryType::GROUND, uid(0xA0), None, uid(floor_cons), 180.0, 0.0, rect(8.0, 5.0), None));
                 let side = |b: bool| if b || exposure == 2 { BoundaryType::ADIABATIC } else { BoundaryType::GROUND };
                 let front = if exposure == 2 { BoundaryType::ADIABATIC } else { BoundaryType::GROUND };
-                m.walls.push(wall(2, front, uid(0xA0), None, uid(0xC0), 90.0, 0.0, rect(8.0, 3.0), None));
-                m.walls.push(wall(3, front, uid(0xA0), None, uid(0xC0), 90.0, 90.0, rect(5.0, 3.0), None));
-                m.walls.push(wall(4, side(half), uid(0xA0), None, uid(0xC0), 90.0, 180.0, rect(8.0, 3.0), None));
-                m.walls.push(wall(5, side(half), uid(0xA0), None, uid(0xC0), 90.0, -90.0, rect(5.0, 3.0), None));
+                m.walls.push(wall(2, front, uid(0xA0), None, uid(wall_cons), 90.0, 0.0, rect(8.0, 3.0), None));
+                m.walls.push(wall(3, front, uid(0xA0), None, uid(wall_cons), 90.0, 90.0, rect(5.0, 3.0), None));
+                m.walls.push(wall(4, side(half), uid(0xA0), None, uid(wall_cons), 90.0, 180.0, rect(8.0, 3.0), None));
+                m.walls.push(wall(5, side(half), uid(0xA0), None, uid(wall_cons), 90.0, -90.0, rect(5.0, 3.0), None));
                 if exposure == 2 {
                     // a room whose slab has no exposed perimeter at all: the slab still has a finite, small, non-negative U
                     // and every figure of the model is finite (C14: sane closed models give finite numbers)
@@ -602,7 +605,7 @@ mod n {
                 c.check("C06.ground.wall", matches!(got_wall, Some(u) if (u as f64 - u_wall).abs() <= 0.0101), || format!("basement wall U = {:?} want {} (z {} U_w {} d_t {})", got_wall, u_wall, z, u_w, d_t));
                 // deeper / better insulated never loses more
                 c.check("C06.ground.below_air_value", matches!(got_wall, Some(u) if (u as f64) <= u_w + 0.0051), || format!("buried wall U {:?} above the same wall in air {}", got_wall, u_w));
-                c.nontrivial(format!("{} {} {} {} {}", depth, half, insulated, d_ins, rn));
+                c.nontrivial(format!("{} {} {} {} {} {}", depth, half, insulated, wall_insulated, d_ins, rn));
                 c.sample(|| format!("z {} half {} Rf {} D {} Rn {} -> slab {:?} wall {:?}", depth, half, r_floor, d_ins, rn, got_slab, got_wall));
             },
         );
